@@ -109,6 +109,9 @@ def run_shard(desc):
     # every grain indexes exactly minpks + 1 peaks (all of its reflections): each must still be reported, whichever grain owns the
     # last g-vector of the list and whether the list has an odd or an even length (one extra spurious vector makes the other parity)
     combos += [(0.01, 0.002, -2.0, 0.005, "ideal"), (0.01, 0.002, -2.0, 0.005, "ideal+1")]
+    # an extra grain of which only ONE ZONE of reflections was recorded (hkl with h+k+l = 0, or h+2k = 0: a coplanar set in a general
+    # direction): whatever is reported for it must still be a right-handed copy of the lattice indexing more than the minimum
+    combos += [(0.02, 0.002, -3.0, 0.005, "zone111"), (0.02, 0.002, -3.0, 0.005, "zone120")]
     if only_low:
         combos = [(0.02, ct, mf, 0.005, "ideal") for ct in (0.002, -0.002) for mf in (0.08, 0.2, 0.3)]
     if wide:
@@ -121,6 +124,13 @@ def run_shard(desc):
         minpks = int(mfrac * nref) if mfrac > 0 else (int(((np.arange(nref) * 7 + 3) % 10 < 3).sum()) if mfrac == -1.0 else nref - 1)
         gvs = [g.copy() for g in gv_grain]
         n_expected = ng
+        if kind.startswith("zone"):
+            zsel = (hkls[:, 0] + hkls[:, 1] + hkls[:, 2] == 0) if kind == "zone111" else (hkls[:, 0] + 2 * hkls[:, 1] == 0)
+            if zsel.sum() < 6:
+                continue
+            Rz = O.rotation_from_axis_angle(*ROT_TABLE[(ng + shift) % len(ROT_TABLE)])
+            gvs.append(np.dot(np.dot(Rz, B), hkls[zsel].T).T)
+            minpks = max(3, int(zsel.sum()) // 2)
         if kind == "offsets":
             # deterministic "noise": a fixed lattice of small offsets in hkl space (well inside hkl_tol)
             for gi, (g, R) in enumerate(zip(gvs, rots)):
